@@ -276,6 +276,8 @@ struct Norm<'a> {
     stats: &'a mut Stats,
     desc: &'a str,
     loops: usize,
+    /// kind of each loop in pre-order, after normalisation (`loop`, `while`, `for`)
+    loop_kinds: Vec<&'static str>,
     tmp: usize,
     closure_args: usize,
     deref_idents: Vec<String>,
@@ -295,9 +297,10 @@ struct Norm<'a> {
 }
 
 impl<'a> Norm<'a> {
-    fn mark_loop(&mut self, body: &mut syn::Block) {
+    fn mark_loop(&mut self, body: &mut syn::Block, kind: &'static str) {
         let k = self.loops;
         self.loops += 1;
+        self.loop_kinds.push(kind);
         let m = ident(&format!("__zx_loop_{}", k));
         let st: Stmt = parse_quote!(#m!(););
         body.stmts.insert(0, st);
@@ -1077,14 +1080,14 @@ impl<'a> VisitMut for Norm<'a> {
         }
         // loops are numbered in pre-order
         match e {
-            Expr::While(w) => self.mark_loop(&mut w.body),
+            Expr::While(w) => self.mark_loop(&mut w.body, "while"),
             Expr::ForLoop(f) => {
                 // name the ghost iterator (`for x in iter: e`) — specification syntax only
                 let ex = &f.expr;
                 *f.expr = parse_quote!(__zx_iter!(#ex));
-                self.mark_loop(&mut f.body)
+                self.mark_loop(&mut f.body, "for")
             }
-            Expr::Loop(l) => self.mark_loop(&mut l.body),
+            Expr::Loop(l) => self.mark_loop(&mut l.body, "loop"),
             _ => {}
         }
         self.n9_pre(e);
@@ -1335,11 +1338,12 @@ fn slice_match_as_if_chain(m: &syn::ExprMatch) -> Option<Expr> {
     Some(parse_quote!({ let __s = #scrut; #chain }))
 }
 
-pub fn normalise(block: &mut syn::Block, opts: &BTreeMap<String, String>, stats: &mut Stats, desc: &str, before: &[String]) -> (usize, Vec<usize>, usize) {
+pub fn normalise(block: &mut syn::Block, opts: &BTreeMap<String, String>, stats: &mut Stats, desc: &str, before: &[String]) -> (usize, Vec<usize>, usize, String) {
     let deref_idents = opts.get("n3").map(|s| s.split(',').map(|x| x.to_string()).collect()).unwrap_or_default();
-    let mut n = Norm { stats, desc, loops: 0, tmp: 0, closure_args: 0, deref_idents, keep_async: false, yieldctx: opts.get("yieldctx").cloned(), opt_map: opts.contains_key("optmap"), dropnote: opts.get("dropnote").cloned(), selfty: opts.get("selfty").cloned(), skip_sort: false, strviews: opts.contains_key("strviews"), forlist: opts.contains_key("forlist"), forslice: opts.contains_key("forslice"), nexton: opts.get("nexton").cloned(), before: before.to_vec(), before_hits: vec![0; before.len()], subst: opts.get("subst").and_then(|v| v.split_once(':').map(|(a, b)| (a.to_string(), b.replace('~', "::")))) };
+    let mut n = Norm { stats, desc, loops: 0, loop_kinds: Vec::new(), tmp: 0, closure_args: 0, deref_idents, keep_async: false, yieldctx: opts.get("yieldctx").cloned(), opt_map: opts.contains_key("optmap"), dropnote: opts.get("dropnote").cloned(), selfty: opts.get("selfty").cloned(), skip_sort: false, strviews: opts.contains_key("strviews"), forlist: opts.contains_key("forlist"), forslice: opts.contains_key("forslice"), nexton: opts.get("nexton").cloned(), before: before.to_vec(), before_hits: vec![0; before.len()], subst: opts.get("subst").and_then(|v| v.split_once(':').map(|(a, b)| (a.to_string(), b.replace('~', "::")))) };
     n.visit_block_mut(block);
     let (l, b) = (n.loops, n.before_hits.clone());
+    let kinds = n.loop_kinds.join(",");
     // closures that are still there after normalisation carry no contract: Verus knows nothing about their results
     struct CC(usize);
     impl<'ast> syn::visit::Visit<'ast> for CC {
@@ -1347,7 +1351,7 @@ pub fn normalise(block: &mut syn::Block, opts: &BTreeMap<String, String>, stats:
     }
     let mut cc = CC(0);
     syn::visit::Visit::visit_block(&mut cc, block);
-    (l, b, cc.0)
+    (l, b, cc.0, kinds)
 }
 
 /// N8: take the token body of `try_stream! { … }` / `stream! { … }` inside a function.
